@@ -1,6 +1,7 @@
 package writecache
 
 import (
+	"github.com/nspcc-dev/neofs-node/internal/verifhook"
 	storagelog "github.com/nspcc-dev/neofs-node/pkg/local_object_storage/internal/log"
 	oid "github.com/nspcc-dev/neofs-sdk-go/object/id"
 )
@@ -26,6 +27,7 @@ func (c *cache) delete(addr oid.Address) error {
 			storagelog.StorageTypeField(wcStorageType),
 			storagelog.OpField("DELETE"),
 		)
+		verifhook.Point("writecache.delete.file")
 		c.objCounters.Delete(addr)
 		c.metrics.DecWCObjectCount()
 		c.metrics.SetWCSize(c.objCounters.Size())
